@@ -18,8 +18,8 @@
   Narrowings of the C++ made explicit here:
     note_pitch, pitch, last_pitch : uint16_t  (`% 65536`)
     ins_transpose : int8_t, `(int8_t) get_var(PAN)`                       (`wrap8`)
-    max_tl : uint8_t in MD_FM::v_set_vol   (`(tl + vol) % 256`, *then* the clamp at 127)
-    vol : uint8_t in MD_PSGMelody::v_set_vol (`(uint8_t) get_var`, `15 - vol`, `+ env`: all `% 256`)
+    (after the `fix:` commits eca7ac3 / 764d07f the FM total level and the PSG attenuation are
+     computed in `int` and clamped, no 8-bit wrap; `get_psg_volume` takes a `uint16_t`)
     tempo_delta : uint8_t (`% 256`), tempo_counter 7 bits, env_pos : uint8_t
     bpm_to_delta: `uint16_t bpm`; the double expression `(bpm/base)*256 + 0.5 - 1` is
       `(128·bpm − 75)/150` exactly (its distance to an integer is ≥ 1/150), truncated.
@@ -126,17 +126,16 @@ def fmVolAdd (coarse : Bool) (v : Int) : Int :=
     md_fm_vol_formula.1 + x * md_fm_vol_formula.2.1 - Int.tdiv x md_fm_vol_formula.2.2
   else v
 
-/-- the value `MD_FM::v_set_vol` writes to operator `op` -/
+/-- the value `MD_FM::v_set_vol` writes to operator `op` (`int max_tl`, clamped to 0..127) -/
 def fmTl (tl con : Nat) (op : Nat) (add : Int) : Nat :=
-  let m := if op ≥ tab md_opn_con_op con then u8 (tl + add) else tl % 256
-  if m > md_fm_tl_max then md_fm_tl_max else m
+  let m : Int := if op ≥ tab md_opn_con_op con then (tl : Int) + add else tl
+  if m > md_fm_tl_max then md_fm_tl_max else if m < 0 then 0 else m.toNat
 
-/-- the value `MD_PSGMelody::v_set_vol` / `MD_PSGNoise::v_set_vol` writes -/
+/-- the value `MD_PSGMelody::v_set_vol` / `MD_PSGNoise::v_set_vol` writes (`int vol`) -/
 def psgAtt (coarse : Bool) (v : Int) (envDelay : Nat) : Nat :=
-  let vol := u8 v
-  let vol := if coarse then u8 (15 - (vol : Int)) else psgVolume vol
-  let vol := (vol + envDelay % 16) % 256
-  if vol > 15 then 15 else vol
+  let a : Int := if coarse then (if v > 15 then 0 else 15 - v) else psgVolume (if v < 0 then 0 else v.toNat)
+  let vol := a + (envDelay % 16 : Nat)
+  if vol > 15 then 15 else vol.toNat
 
 /-- `MD_Driver::bpm_to_delta` with `ppqn = 24`, `seq_rate = 60` -/
 def bpmToDelta (bpm : Nat) : Nat :=
@@ -153,7 +152,7 @@ structure Ch where
   slur : Bool := false
   keyOn : Bool := false
   notePitch : Nat := 0xffff
-  lastPitch : Nat := 0
+  lastPitch : Nat := 0xffff
   pitch : Nat := 0
   insTranspose : Int := 0
   con : Nat := 0
